@@ -12,6 +12,14 @@ from hypnotoad.core.equilibrium import Equilibrium, Point2D, closest_approach, f
 from hypnotoad.utils import polygons
 
 
+class MinimalEquilibrium(Equilibrium):
+    """as the pinned test suite builds one: options + wall, then the generic Equilibrium.__init__ (which creates closed_wallarray)"""
+    def __init__(self, wall):
+        self.user_options = Equilibrium.user_options_factory.add(refine_width=1.0e-5, refine_atol=2.0e-8).create({})
+        self.wall = wall
+        super().__init__({})
+
+
 def main():
     cases = json.load(sys.stdin)
     out = []
@@ -22,7 +30,9 @@ def main():
                 w = numpy.array(c["wall"], dtype=float)
                 r = find_intersections(w, Point2D(*c["s"]), Point2D(*c["e"]))
                 fi = [] if r is None else r.tolist()
-                eq = types.SimpleNamespace(closed_wallarray=w, closed_wall=[Point2D(*p) for p in c["wall"]])
+                # a real (minimal) Equilibrium built from the OPEN vertex list: its own constructor closes the wall
+                eq = MinimalEquilibrium([Point2D(*p) for p in c["wall"][:-1]])
+                eq.closed_wall = [Point2D(*p) for p in c["wall"]]
                 try:
                     import matplotlib.pyplot as plt
                     plt.show = lambda *a, **k: None
